@@ -1115,6 +1115,11 @@ wrapped_interval<Number>::URem(const wrapped_interval<Number> &x) const {
 template <typename Number>
 wrapped_interval<Number>
 wrapped_interval<Number>::ZExt(unsigned bits_to_add) const {
+  // XXX: we need the check is_top before unsigned_split calls
+  // get_bitwidth();
+  if (is_top())
+    return *this;
+
   std::vector<wrapped_interval<Number>> intervals;
   unsigned_split(intervals);
 
@@ -1138,6 +1143,11 @@ wrapped_interval<Number>::ZExt(unsigned bits_to_add) const {
 template <typename Number>
 wrapped_interval<Number>
 wrapped_interval<Number>::SExt(unsigned bits_to_add) const {
+  // XXX: we need the check is_top before signed_split calls
+  // get_bitwidth();
+  if (is_top())
+    return *this;
+
   std::vector<wrapped_interval<Number>> intervals;
   signed_split(intervals);
 
